@@ -482,7 +482,7 @@ int main(int argc, char** argv) {
     rnd.push_back({UR_PS, RAND, c, 0, 1});
   }
   rnd.push_back({UR_PS_VIRTUAL, RAND, 0, 0, 0});
-  for (int g = 0; g < 2; ++g) { // a: graph kind, c: sub
+  for (int g : {0, 4}) { // a: graph kind (0 no_lockable, 4 abstract locks), c: sub
     rnd.push_back({UR_GRAPH, RAND, g, 0, 0});
     rnd.push_back({UR_GRAPH, RAND, g, 0, 1});
   }
@@ -496,6 +496,23 @@ int main(int argc, char** argv) {
   }
   for (int g = 0; g < 4; ++g) rnd.push_back({CSR_THREADS, RAND, g, 0, 0});
 
+  // --param focus=threads|file|offline|units : only the random families of the graph-object components
+  // (used for the extra runs on other virtual topologies, where only thread counts / socket counts matter)
+  std::string focus = H.param("focus");
+  if (!focus.empty()) {
+    std::vector<Entry> keep;
+    for (auto& e : rnd)
+      if ((focus == "threads" && e.comp == CSR_THREADS) || (focus == "file" && e.comp == FILEGRAPH) ||
+          (focus == "offline" && e.comp == OFFLINE) || (focus == "units" && e.comp == UR_GRAPH) ||
+          (focus == "graphobj" && (e.comp == CSR_THREADS || e.comp == FILEGRAPH || e.comp == UR_GRAPH)))
+        keep.push_back(e);
+    exh.clear();
+    rnd = keep;
+    if (rnd.empty()) {
+      fprintf(stderr, "unknown focus %s\n", focus.c_str());
+      return 2;
+    }
+  }
   if (H.paramInt("plan", 0)) {
     printf("exhaustive=%zu random=%zu\n", exh.size(), rnd.size());
     rmdir(tmpl);
